@@ -57,6 +57,7 @@ const MAXP: u32 = 0x6D61_7870;
 const HHEA: u32 = 0x6868_6561;
 const HMTX: u32 = 0x686D_7478;
 const GLYF: u32 = 0x676C_7966;
+const VHEA: u32 = 0x7668_6561;
 
 pub struct Provider {
     pub cmap: [u8; 12 + 32],
@@ -65,6 +66,8 @@ pub struct Provider {
     hhea: [u8; 36],
     hmtx: [u8; 8],
     pub has_glyf: bool,
+    /// serve a 4-byte (unparsable) vhea table
+    pub corrupt_vhea: bool,
 }
 
 impl FontTableProvider for Provider {
@@ -75,6 +78,7 @@ impl FontTableProvider for Provider {
             MAXP => Some(Cow::Borrowed(&self.maxp[..])),
             HHEA => Some(Cow::Borrowed(&self.hhea[..])),
             HMTX => Some(Cow::Borrowed(&self.hmtx[..])),
+            VHEA if self.corrupt_vhea => Some(Cow::Borrowed(&self.hmtx[..4])),
             _ => None,
         })
     }
@@ -118,6 +122,6 @@ pub fn provider(has_glyf: bool, dotted_circle_gid: u16) -> Provider {
     let mut hmtx = [0u8; 8];
     put16(&mut hmtx, 0, 500);
     put16(&mut hmtx, 4, 600);
-    Provider { cmap, head, maxp, hhea, hmtx, has_glyf }
+    Provider { cmap, head, maxp, hhea, hmtx, has_glyf, corrupt_vhea: false }
 }
 
